@@ -565,7 +565,7 @@ class ConvergenceControllerSetup(_Cfg):
     target = ('pySDC/core/convergence_controller.py', 'ConvergenceController.__init__')
 
     def instances(self, tier):
-        return [dict(case=c) for c in ('user_overrides_default', 'added_twice', 'allow_double', 'dependency_loaded_once', 'defaults_kept')]
+        return [dict(case=c) for c in ('user_overrides_default', 'added_twice', 'allow_double', 'dependency_loaded_once', 'defaults_kept', 'subclass_loaded_first')]
 
     def build(self, inst, mk):
         from contracts import ctrl
@@ -579,6 +579,10 @@ class ConvergenceControllerSetup(_Cfg):
             conv = {Adaptivity: dict(e_tol=1e-3, beta=0.5, dt_max=2.0)} if c != 'defaults_kept' else {Adaptivity: dict(e_tol=1e-3)}
             if c == 'dependency_loaded_once':
                 conv[StepSizeLimiter] = dict(dt_min=1e-4, dt_max=7.0)  # given by the user for the class itself
+            if c == 'subclass_loaded_first':
+                # a class of the user's derived from a library class is requested BEFORE the library class itself: both were asked for, each with its own parameters
+                MyLimiter = type('MyLimiter', (StepSizeLimiter,), {})
+                conv = {MyLimiter: dict(dt_max=3.0), StepSizeLimiter: dict(dt_min=1e-4, dt_max=7.0), **conv}
             ctl, _ = ctrl.make_controller(mk, 1, conv_controllers=conv, cparams=dict(mssdc_jac=False), level_params=dict(restol=-1.0))
             if c == 'added_twice':
                 ctl.add_convergence_controller(Adaptivity, description=ctl.description, params=dict(e_tol=5.0))
@@ -609,6 +613,11 @@ class ConvergenceControllerSetup(_Cfg):
             lim = [x for x in result.convergence_controllers if type(x).__name__ == 'StepSizeLimiter']
             yield 'limiter_once_with_user_parameters', len(lim) == 1 and lim[0].params.dt_min == 1e-4
             yield 'user_parameters_for_the_class_override_those_passed_by_the_dependency', len(lim) == 1 and lim[0].params.dt_max == 7.0
+        if c == 'subclass_loaded_first':
+            lim = [x for x in result.convergence_controllers if type(x).__name__ == 'StepSizeLimiter']
+            mine = [x for x in result.convergence_controllers if type(x).__name__ == 'MyLimiter']
+            yield 'requested_class_instantiated_with_its_user_parameters_although_a_subclass_instance_exists', len(lim) == 1 and lim[0].params.dt_max == 7.0 and lim[0].params.dt_min == 1e-4
+            yield 'derived_class_instantiated_with_its_own_parameters', len(mine) == 1 and mine[0].params.dt_max == 3.0
         orders = [result.convergence_controllers[i].params.control_order for i in result.convergence_controller_order]
         yield 'ascending_control_order', orders == sorted(orders)
 
